@@ -112,7 +112,7 @@ def grp_job(curve, op, coord, zmode=2, ndbl=None, pt_bits=None, timeout=None, co
 
 def grp_jobs(tier):
     out = []
-    curves = TINY + ([1, 2] if tier == "quick" else SMALL)
+    curves = ([8, 9, 10, 1] if tier == "quick" else TINY + SMALL)
     for c in curves:
         tiny = c in TINY
         # affine build: public add/sub + affine dbl_n + membership test
@@ -128,11 +128,11 @@ def grp_jobs(tier):
             continue
         zmodes = (2,) if tiny else (1, 3)
         for z in zmodes:
-            for op in (6, 7):
+            for op in ((6,) if tier == "quick" else (6, 7)):
                 out.append(grp_job(c, op, "proj", z, timeout=600 if not tiny else None, cost=5 if not tiny else 1))
         out.append(grp_job(c, 11, "proj", 1))
         for coord in ("proj", "projmix"):
-            for op in (8, 9):
+            for op in ((8,) if tier == "quick" else (8, 9)):
                 out.append(grp_job(c, op, coord, 1, timeout=600 if not tiny else None, cost=4 if not tiny else 1))
         for coord in ("proj", "projrep"):
             for n in ((1, 2) if tier == "quick" else (1, 2, 3, 4)):
@@ -215,18 +215,23 @@ def needs_enum(algo):
 
 
 DEFAULT = algo_defs(fxp=(COMB_2T, 4), unk=(COMB_1T, 2), twin=T_INTER)      # tests/ecdsa/main.c with w=9 -> 4
+# same selection for the entry points that never touch the base-point table (saves its construction per job)
+DEFAULT_NOTAB = algo_defs(fxp=(BIN, 2), unk=(COMB_1T, 2), twin=T_INTER)
 AFFBIN = algo_defs()                                                          # affine / everything binary
 
 
-def twin_chunks(layer, curve, coord, adefs, tag, enum, tier, cost=3, timeout=None):
+def twin_chunks(layer, curve, coord, adefs, tag, enum, tier, cost=3, timeout=None, unwind=17):
     """twin multiplication: (n+1)^2 scalar pairs; with K_ENUM one job per value of k (all l inside)."""
     n = ORDER[curve]
     out = []
     if not enum:
-        out.append(mul_job(layer, curve, "twinbp", coord, adefs, tag, False, cost=cost, timeout=timeout))
+        out.append(mul_job(layer, curve, "twinbp", coord, adefs, tag, False, cost=cost, timeout=timeout, unwind=unwind))
         return out
+    half = (n + 1) // 2
     for k in range(0, n + 1):
-        out.append(mul_job(layer, curve, "twinbp", coord, adefs, tag, True, kmin=k, kmax=k, cost=cost, timeout=timeout))
+        for lo, hi in ((0, half - 1), (half, n)):       # two halves of the l range: ~45 s per job [measured]
+            out.append(mul_job(layer, curve, "twinbp", coord, adefs, tag, True, kmin=k, kmax=k, lmin=lo, lmax=hi,
+                               cost=cost, timeout=timeout or 400, unwind=unwind))
     return out
 
 
@@ -236,17 +241,15 @@ def mul_jobs(tier):
     if tier == "quick":
         # default configuration of tests/ecdsa (projective, mixed add, repeated double, comb2t / comb1t / inter)
         out.append(mul_job("B", T, "bp", "projmixrep", DEFAULT, "default", True, unwind=17))
-        out.append(mul_job("B", T, "unk", "projmixrep", DEFAULT, "default", True, unwind=17, cost=6))
-        out += twin_chunks("B", 9, "projmixrep", DEFAULT, "default", True, tier, cost=4)
-        out.append(mul_job("B", 10, "chk", "projmixrep", DEFAULT, "default", True, kmin=0, kmax=0, unwind=17))
+        out.append(mul_job("B", T, "unk", "projmixrep", DEFAULT_NOTAB, "default", True, unwind=10, cost=9, timeout=400))
+        out += twin_chunks("B", 9, "projmixrep", DEFAULT_NOTAB, "default", True, tier, cost=4, unwind=10)
         # affine / binary
         out.append(mul_job("B", T, "bin", "aff", AFFBIN, "bin", False))
         out.append(mul_job("B", T, "bp", "aff", AFFBIN, "bin", False))
         out.append(mul_job("B", T, "twinbp", "aff", AFFBIN, "bin", False, cost=5))
         out.append(mul_job("B", 10, "chk", "aff", AFFBIN, "bin", False, kmin=0, kmax=0))
         # end to end, binary, all points x all scalars
-        out.append(mul_job("C", T, "bin", "aff", AFFBIN, "bin", False, cost=8))
-        out.append(mul_job("C", T, "bin", "proj", AFFBIN, "bin", False, cost=9))
+        out.append(mul_job("C", T, "bin", "aff", AFFBIN, "bin", False, cost=10, timeout=400))
         return out
     # ---------------- thorough: the build matrix on the tiny curve
     for coord in ("aff", "proj", "projmix"):
@@ -266,7 +269,7 @@ def mul_jobs(tier):
             twins.append((T_INTER, "inter", True))      # no affine implementation exists (does not compile)
         for tw, tag, en in twins:
             ad = algo_defs(fxp=(COMB_2T, 3), unk=(COMB_1T, 2), twin=tw) if tw == T_FXP_UNKPT else algo_defs(twin=tw)
-            for c in ((T, 9) if en else (T,)):
+            for c in ((9,) if en else (T,)):      # table-driven twins: p=11 n=7 (64 scalar pairs); binary: p=7 n=11
                 out += twin_chunks("B", c, coord, ad, "twin_" + tag, en, tier, cost=4)
         # ec_point_twin_mult on two arbitrary points (joint / inter / bin), small scalar window, p=11 n=7
         for tw, tag, en in twins:
@@ -279,7 +282,7 @@ def mul_jobs(tier):
             out.append(mul_job("B", c, "chk", coord, algo_defs(unk=(COMB_1T, 2)), "unk_comb1t2", True, kmin=0, kmax=0))
             out.append(mul_job("B", c, "chk", coord, AFFBIN, "bin", False, kmin=0, kmax=0))
     # representative independence: default configuration with PTOPS_Z = 2
-    out.append(mul_job("B", T, "unk", "projmixrep", DEFAULT, "default", True, unwind=17, extra={"PTOPS_Z": 2}, cost=6))
+    out.append(mul_job("B", T, "unk", "projmixrep", DEFAULT_NOTAB, "default", True, unwind=10, extra={"PTOPS_Z": 2}, cost=6))
     out.append(mul_job("B", T, "bp", "projmixrep", DEFAULT, "default", True, unwind=17, extra={"PTOPS_Z": 2}))
     # default + affine/binary configurations on the p=23 curves (prime order 31, and cofactor 2)
     for c in (1, 4):
@@ -287,9 +290,9 @@ def mul_jobs(tier):
         out.append(mul_job("B", c, "bin", "aff", AFFBIN, "bin", False, cost=6))
         out.append(mul_job("B", c, "bin", "proj", AFFBIN, "bin", False, cost=6))
         for lo in range(0, ORDER[c] + 1, 8):
-            out.append(mul_job("B", c, "unk", "projmixrep", DEFAULT, "default", True, kmin=lo,
-                               kmax=min(lo + 7, ORDER[c]), unwind=17, cost=8, timeout=1500))
-    out.append(mul_job("B", 4, "chk", "projmixrep", DEFAULT, "default", True, kmin=0, kmax=0, unwind=17))
+            out.append(mul_job("B", c, "unk", "projmixrep", DEFAULT_NOTAB, "default", True, kmin=lo,
+                               kmax=min(lo + 7, ORDER[c]), unwind=10, cost=8, timeout=1500))
+    out.append(mul_job("B", 4, "chk", "projmixrep", DEFAULT_NOTAB, "default", True, kmin=0, kmax=0, unwind=10))
     # ---------------- end to end
     out.append(mul_job("C", T, "bin", "aff", AFFBIN, "bin", False, cost=8))
     out.append(mul_job("C", T, "bin", "proj", AFFBIN, "bin", False, cost=9))
@@ -297,8 +300,8 @@ def mul_jobs(tier):
     out.append(mul_job("C", 1, "bin", "proj", AFFBIN, "bin", False, cost=30, timeout=1500))
     out.append(mul_job("C", 10, "bin", "projrep", AFFBIN, "bin", False, cost=9))
     for lo in range(0, ORDER[T] + 1, 3):
-        out.append(mul_job("C", T, "unk", "projmixrep", DEFAULT, "default", True, kmin=lo, kmax=min(lo + 2, ORDER[T]),
-                           unwind=17, cost=25, timeout=1500))
+        out.append(mul_job("C", T, "unk", "projmixrep", DEFAULT_NOTAB, "default", True, kmin=lo, kmax=min(lo + 2, ORDER[T]),
+                           unwind=10, cost=25, timeout=1500))
     return out
 
 
